@@ -94,7 +94,14 @@ def register(reg):
                 ['check("post-genesis-rule-exactly-from-the-activation-height", '
                  'fn_is(is_unspendable, "is_unspendable_genesis") == (block.height >= self.coin.GENESIS_ACTIVATION) and '
                  'fn_is(is_unspendable, "is_unspendable_legacy") == (block.height < self.coin.GENESIS_ACTIVATION))'],
-            ('after', 'put_utxo(tx_hash + to_le_uint32(idx), hashX + tx_numb + to_le_uint64(txout.value))'): ['self.g_put = self.g_put + 1'],
+            ('after', 'put_utxo(tx_hash + to_le_uint32(idx), hashX + tx_numb + to_le_uint64(txout.value))'):
+                ['self.g_put = self.g_put + 1',
+                 # the cache entry of an output: keyed by the hash of ITS transaction and ITS position in that transaction's output
+                 # list (not its position among the spendable ones), valued hashX(11) + tx number(5) + value(8) of that output
+                 'check("cache-entry-is-keyed-by-the-outputs-own-position-and-carries-its-tx-number-and-value", '
+                 '0 <= idx and idx < len(tx.outputs) and tx.outputs[idx].value == txout.value and tx.outputs[idx].pk_script == txout.pk_script and '
+                 'len(hashX) == 11 and tx_num == old(self.state.tx_count) + cur_t and '
+                 'lookup(self.utxo_cache, tx_hash + leu_enc(idx, 4)) == hashX + leu_enc(tx_num, 8)[0:5] + leu_enc(txout.value, 8))'],
             ('before', 'self.db.history.add_unflushed(hashXs_by_tx, state.tx_count)'):
                 ['check("one-history-entry-per-transaction-numbered-from-the-old-count", len(hashXs_by_tx) == len(block.g_txs) and '
                  'state.tx_count == old(self.state.tx_count) and tx_num == old(self.state.tx_count) + len(block.g_txs))',
@@ -132,14 +139,17 @@ def register(reg):
                                                                'self.state.height == old(self.state.height) and self.state.utxo_count == old(self.state.utxo_count) and '
                                                                'self.state.chain_size == old(self.state.chain_size) and '
                                                                'len(self.db.tx_counts) == len(old(self.db.tx_counts)) and len(self.undo_infos) == len(old(self.undo_infos))')],
-                        modifies=['self.utxo_cache', 'self.db_deletes', 'self.touched', 'self.g_put', 'self.g_spent', 'tx_hashes', 'undo_info', 'hashXs_by_tx']),
+                        modifies=['self.utxo_cache', 'self.db_deletes', 'self.touched', 'self.g_put', 'self.g_spent', 'tx_hashes', 'undo_info', 'hashXs_by_tx'],
+                        ghost_begin=['cur_t = _i']),
             1: LoopSpec('for txin in tx.inputs',
                         invariants=[('counts', 'utxo_count_delta == self.g_put - self.g_spent and len(undo_info) == self.g_spent and '
-                                               'self.g_put >= 0 and self.g_spent >= 0')],
+                                               'self.g_put >= 0 and self.g_spent >= 0'),
+                                    ('this-transaction', 'tx_num == old(self.state.tx_count) + cur_t and tx_numb == leu_enc(tx_num, 8)[0:5]')],
                         modifies=['self.utxo_cache', 'self.db_deletes', 'self.g_spent', 'undo_info', 'hashXs']),
             2: LoopSpec('for idx, txout in enumerate(tx.outputs)',
                         invariants=[('counts', 'utxo_count_delta == self.g_put - self.g_spent and len(undo_info) == self.g_spent and '
-                                               'self.g_put >= 0 and self.g_spent >= 0')],
+                                               'self.g_put >= 0 and self.g_spent >= 0'),
+                                    ('this-transaction', 'tx_num == old(self.state.tx_count) + cur_t and tx_numb == leu_enc(tx_num, 8)[0:5]')],
                         modifies=['self.utxo_cache', 'self.g_put', 'hashXs']),
         },
         props=['C01', 'C02', 'C15'])
